@@ -789,9 +789,13 @@ class Mesh:
         else:
             data['p'] = np.ascontiguousarray(np.array(data['p']).T)
             data['t'] = np.ascontiguousarray(np.array(data['t']).T)
+        orientations = data.pop('orientations', None) or {}
         if 'boundaries' in data and data['boundaries'] is not None:
-            data['boundaries'] = {k: np.array(v)
-                                  for k, v in data['boundaries'].items()}
+            data['boundaries'] = {
+                k: (OrientedBoundary(np.array(v), orientations[k])
+                    if k in orientations else np.array(v))
+                for k, v in data['boundaries'].items()
+            }
         if 'subdomains' in data and data['subdomains'] is not None:
             data['subdomains'] = {k: np.array(v)
                                   for k, v in data['subdomains'].items()}
@@ -808,12 +812,20 @@ class Mesh:
             boundaries = {k: v.tolist() for k, v in self.boundaries.items()}
         if self.subdomains is not None:
             subdomains = {k: v.tolist() for k, v in self.subdomains.items()}
-        return {
+        data = {
             'p': self.p.T.tolist(),
             't': self.t.T.tolist(),
             'boundaries': boundaries,
             'subdomains': subdomains,
         }
+        if self.boundaries is not None:
+            # orientations of oriented boundaries, keyed like 'boundaries'
+            orientations = {k: v.ori.tolist()
+                            for k, v in self.boundaries.items()
+                            if isinstance(v, OrientedBoundary)}
+            if len(orientations) > 0:
+                data['orientations'] = orientations
+        return data
 
     @classmethod
     def from_mesh(cls, mesh, t: Optional[ndarray] = None):
@@ -1375,25 +1387,33 @@ class Mesh:
 
         data = np.load(filename)
 
+        boundaries = {
+            key[2:]: (OrientedBoundary(data[key], data['o_' + key[2:]])
+                      if 'o_' + key[2:] in data.files else data[key])
+            for key in data.files
+            if key[:2] == 'b_'
+        }
+        subdomains = {
+            key[2:]: data[key]
+            for key in data.files
+            if key[:2] == 's_'
+        }
+
         return cls(
             data['doflocs'],
             data['t'],
-            _boundaries={
-                key[2:]: data[key]
-                for key in data.files
-                if key[:2] == 'b_'
-            },
-            _subdomains={
-                key[2:]: data[key]
-                for key in data.files
-                if key[:2] == 's_'
-            },
+            _boundaries=None if len(boundaries) == 0 else boundaries,
+            _subdomains=None if len(subdomains) == 0 else subdomains,
         )
 
     def save_npz(self, filename: str):
 
         boundaries = {} if self.boundaries is None else self.boundaries
         subdomains = {} if self.subdomains is None else self.subdomains
+        # orientations of oriented boundaries are stored next to the indices
+        orientations = {'o_' + key: value.ori
+                        for key, value in boundaries.items()
+                        if isinstance(value, OrientedBoundary)}
         boundaries = {'b_' + key: value for key, value in boundaries.items()}
         subdomains = {'s_' + key: value for key, value in subdomains.items()}
         np.savez(
@@ -1401,5 +1421,6 @@ class Mesh:
             doflocs=self.doflocs,
             t=self.t,
             **boundaries,
+            **orientations,
             **subdomains,
         )
